@@ -243,8 +243,9 @@ class Periodogram(FourierSpectrum):
                                           detrend=detrend)
 
     def __call__(self):
+        # the frequency scaling is applied once, by self.scale() below
         psd = speriodogram(self.data, window=self.window, sampling=self.sampling,
-                             NFFT=self.NFFT, scale_by_freq=self.scale_by_freq,
+                             NFFT=self.NFFT, scale_by_freq=False,
                              detrend=self.detrend)
         self.psd = psd
         if self.scale_by_freq is True:
